@@ -1,5 +1,6 @@
 //! vharness <layer>: reads one case per line on stdin, runs it on the real Shuttle crates,
 //! prints one canonical result line per case.  No oracle logic lives here.
+mod l_clock;
 mod l_codec;
 mod l_prog;
 mod l_sched;
@@ -25,6 +26,7 @@ fn main() {
             "codec" => l_codec::run(&words),
             "prog" => l_prog::run(&words),
             "sched" => l_sched::run(&words),
+            "clock" => l_clock::run(&words),
             _ => {
                 eprintln!("usage: vharness <codec>");
                 std::process::exit(2);
